@@ -322,7 +322,15 @@ func ifs(c bool, a, b string) string {
 }
 
 func resumeCases(rng *rand.Rand, n int) []RCase {
-	var cs []RCase
+	// directed: the corners of "updatable at DISCONNECT" are always there, whatever the seed draws
+	cs := []RCase{
+		{V: 5, CfgExpiry: 7200, ReqExpiry: 3600, End: "disconnect_new_expiry", NewExpiry: 0, OfflineMs: 100},              // expiry 0 at DISCONNECT ends the session
+		{V: 5, CfgExpiry: 7200, ReqExpiry: 3600, End: "disconnect_new_expiry", NewExpiry: 0, OfflineMs: 100, Sweep: true}, //
+		{V: 5, CfgExpiry: 7200, ReqExpiry: 1, End: "disconnect_new_expiry", NewExpiry: 3, OfflineMs: 1900},                // raised: still there after the CONNECT value
+		{V: 5, CfgExpiry: 7200, ReqExpiry: 3600, End: "disconnect_new_expiry", NewExpiry: 1, OfflineMs: 1900},             // lowered: gone before the CONNECT value
+		{V: 5, CfgExpiry: 2, ReqExpiry: 3600, End: "disconnect", OfflineMs: 2900},                                         // capped by the configuration
+		{V: 5, CfgExpiry: 7200, ReqExpiry: 3600, End: "disconnect", OfflineMs: 100, Sweep: true},
+	}
 	for len(cs) < n {
 		c := RCase{V: []byte{4, 5, 5, 3}[rng.Intn(4)], CfgExpiry: []uint32{2, 7200}[rng.Intn(2)], End: []string{"disconnect", "close", "disconnect_new_expiry"}[rng.Intn(3)]}
 		if c.V == 5 {
